@@ -595,6 +595,12 @@ def mode_controller_set(pid):
     return c
 
 
+def logic_block_leak_check():
+    return common.native_demo_check(
+        "c11_logic_block_timer_leaks_to_next_player.py",
+        "a logic block's timeout / hit window of one player's ball does not act on the next player's persisted state")
+
+
 def late_player_set(pid="C11l"):
     """a player added during another player's ball is in the player list at once, but his player_added event waits for the
     player_adding queue: his first turn may start BEFORE it.  Whatever the order, the per-player list of modes to restart
@@ -676,6 +682,8 @@ def late_player_set(pid="C11l"):
                    "len(self.machine.game.player.restart_modes_on_next_ball) == 0")],
          modifies=["self.machine.game.player.restart_modes_on_next_ball"], raises={},
          bounded="BOUNDED: at most 2 modes to restart")
+    if pid == "C11l":
+        C.finite_checks.append(logic_block_leak_check())
     C.finite_checks.append(common.native_demo_check(
         "c06_turn_of_player_being_added.py",
         "a player whose player_adding queue is still held gets his turn when the previous player's ball ends"))
